@@ -226,6 +226,29 @@ Section CatalogProofs.
       intros X. inversion X; subst. unfold Cache.amem in Hnew. rewrite H in Hnew. discriminate.
   Qed.
 
+  Lemma ci_eqb_refl n : ci_eqb n n = true.
+  Proof. unfold ci_eqb. apply String.eqb_refl. Qed.
+
+  Lemma taken_of_existing db n name e :
+    aget db (PL (LPlain n)) = Some e -> ci_eqb n name = true -> name_taken K db name = true.
+  Proof.
+    intros H Hc. apply (aget_In K keqb keqb_spec) in H. unfold name_taken. apply existsb_exists.
+    exists (PL (LPlain n), e). split; auto.
+  Qed.
+  Lemma not_taken_absent db name : name_taken K db name = false -> amem db (PL (LPlain name)) = false.
+  Proof.
+    intros H. unfold Cache.amem. destruct (aget db (PL (LPlain name))) eqn:E; auto.
+    rewrite (taken_of_existing db name name d E (ci_eqb_refl name)) in H. discriminate.
+  Qed.
+
+  Lemma evict_cat s : InvS s -> CatOK s -> CatOK (evict_cwtf K keqb s) /\ kept s (evict_cwtf K keqb s).
+  Proof.
+    intros I C. unfold evict_cwtf. destruct (aget (st_cache K s) (named K CWTF)) eqn:E; [|split; [exact C|apply kept_refl]].
+    destruct (h_cbs K h) eqn:Ec; [|split; [exact C|apply kept_refl]].
+    pose proof (iv_cache_cbs _ _ _ _ I _ _ E) as Hh.
+    split; [eapply CatOK_subset; [exact C|apply drop_db_subset] | apply drop_kept; auto].
+  Qed.
+
   Lemma cstep_inv s c :
     cop_safe (st_fix K s) c = true -> CInv s ->
     CInv (fst (cstep s c)) /\ kept s (fst (cstep s c)) /\ st_fix K (fst (cstep s c)) = st_fix K s.
@@ -241,10 +264,26 @@ Section CatalogProofs.
       destruct (fold_left (step_instr K keqb hash) (prog_of_op K s o) (s, [], [])) as [[s1 regs1] tr1]. cbn in *.
       destruct HC as [C1 K1]. split; [split; [|split]|split]; auto.
     - (* CRegisterTable *)
-      apply negb_true_iff in Hok. subst overwrite. rewrite andb_true_r.
-      destruct (amem (st_db K s) (PL (LPlain name))) eqn:Em; cbn; [split; [split; [|split]; auto|split; [apply kept_refl|auto]]|].
+      apply negb_true_iff in Hok. subst overwrite.
+      destruct (name_taken K (st_db K s) name) eqn:Et; cbn; [split; [split; [|split]; auto|split; [apply kept_refl|auto]]|].
+      pose proof (not_taken_absent _ _ Et) as Em.
       destruct (register_leaf_inv s (LPlain name) (PInput name ver) (conj I (conj Hs C)) Em) as [A B]; [intros b u X; discriminate|].
       split; [exact A|split; [exact B|reflexivity]].
+    - (* CRegisterByName *)
+      set (h := {| h_templ := slot_name k; h_phys := PL (LPlain name); h_src := Leaf (LPlain name); h_cbs := false |}).
+      set (s1 := set_cache K s (aset (st_cache K s) (named K (slot_name k)) h)).
+      assert (I1 : InvS s1) by (apply (InvS_set_named K keqb hash keqb_spec); auto; intros X; discriminate).
+      assert (S1 : Sound s1) by exact Hs.
+      assert (C1 : CatOK s1) by exact C.
+      assert (K1 : kept s s1) by (intros l e X; exact X).
+      destruct k; try (split; [split; [|split]; auto|split; [exact K1|reflexivity]]).
+      destruct (fx77 (st_fix K s)); [|split; [split; [|split]; auto|split; [exact K1|reflexivity]]].
+      destruct (evict_cwtf_inv K keqb hash keqb_spec s1 I1) as (A1 & A2 & A3).
+      destruct (evict_cat s1 I1 C1) as [B1 B2].
+      split; [split; [exact A1|split; [apply A2; exact S1|exact B1]]|split; [exact (kept_trans _ _ _ K1 B2)|]].
+      destruct A3 as (_ & _ & _ & _ & _ & _ & _ & A8). etransitivity; [exact A8|reflexivity].
+    - (* CHandleByName *)
+      split; [split; [|split]; auto|split; [apply kept_refl|reflexivity]].
     - (* CDropTable *)
       apply negb_true_iff in Hok. subst force. cbn. split; [split; [|split]; auto|split; [apply kept_refl|auto]].
     - (* CRealtime *)
@@ -375,9 +414,17 @@ Section CatalogProofs.
     unfold Catalog.crun in *. rewrite fold_left_app. apply Kp. exact H.
   Qed.
 
+  (* refused whenever an object of that name exists UP TO LETTER CASE (the engines' name resolution) *)
+  Theorem register_refused_ci s existing name ver :
+    amem (st_db K s) (PL (LPlain existing)) = true -> ci_eqb existing name = true ->
+    cstep s (CRegisterTable name false ver) = (s, [Refused name]).
+  Proof.
+    intros H Hc. apply (amem_true K keqb) in H. destruct H as [e H]. cbn.
+    rewrite (taken_of_existing _ _ _ _ H Hc). reflexivity.
+  Qed.
   Theorem register_refused s name ver :
     amem (st_db K s) (PL (LPlain name)) = true -> cstep s (CRegisterTable name false ver) = (s, [Refused name]).
-  Proof. intros H. cbn. rewrite H. reflexivity. Qed.
+  Proof. intros H. apply (register_refused_ci s name); auto. apply ci_eqb_refl. Qed.
 
   Theorem drop_refused s name : cstep s (CDropTable name false) = (s, [Refused name]).
   Proof. reflexivity. Qed.
